@@ -7,6 +7,7 @@ from ..facts import AnchorMissing
 from ..guards import (analysis, as_cmp, closure_info, closure_ret, subst_upvars, is_field_of, accessor_field,
                       field_index, truth_of)
 from ..terms import strip, short, same, walk, show, cname
+from ..sym import atom_str as atom_str_
 
 LEVEL = "other"
 CHUNK = "alpha_g_detector::padwing::Chunk"
@@ -18,7 +19,8 @@ WRAP = "<alpha_g_detector::padwing::PwbPacket as std::convert::TryFrom<std::vec:
 INSENSITIVE = {"Vec::<T, A>::is_empty", "Vec::<T, A>::len", "<impl [T]>::len", "<impl [T]>::is_empty"}
 CHAIN = {"Deref::deref", "DerefMut::deref_mut", "<impl [T]>::iter", "IntoIterator::into_iter",
          "Iterator::enumerate", "Iterator::take", "Iterator::skip", "Iterator::rev", "Iterator::by_ref",
-         "Vec::<T, A>::iter", "<impl [T]>::iter_mut", "Vec::<T, A>::as_slice", "Vec::<T, A>::as_mut_slice"}
+         "Vec::<T, A>::iter", "<impl [T]>::iter_mut", "Vec::<T, A>::as_slice", "Vec::<T, A>::as_mut_slice",
+         "Iterator::map", "Iterator::filter", "Iterator::copied", "Iterator::cloned"}
 SORTS = {"<impl [T]>::sort_unstable_by_key", "<impl [T]>::sort_by_key", "<impl [T]>::sort_by_cached_key",
          "<impl [T]>::sort_unstable_by", "<impl [T]>::sort_by"}
 QUANT = {"Iterator::position", "Iterator::any", "Iterator::all", "Iterator::find"}
@@ -64,6 +66,15 @@ def iter_chain(t):
                 continue
             if s in ("Iterator::take", "Iterator::skip"):
                 ads.append((s.split("::")[1], t[2][1]))
+                t = strip_mut(t[2][0])
+                continue
+            if s in ("Iterator::map", "Iterator::filter", "Iterator::copied", "Iterator::cloned") and t[2]:
+                # lazy adapters: the order only matters at the consumer
+                ads.append(s.split("::")[1])
+                t = strip_mut(t[2][0])
+                continue
+            if s in ("Index::index",) and len(t[2]) == 2 and strip(t[2][1])[0] == "aggr" and "::Range" in strip(t[2][1])[1]:
+                ads.append(("slice", t[2][1]))
                 t = strip_mut(t[2][0])
                 continue
             if s in ("Deref::deref", "DerefMut::deref_mut", "Vec::<T, A>::as_slice"):
@@ -172,9 +183,84 @@ def run(prog, tier, res):
     def after_sort(bb):
         return any(body.dominates(s, bb) and s != bb for s in sorts)
 
-    # ---------------------------------------------------------------- census of uses of `chunks`
+    # ---------------------------------------------------------------- the checks over the chunk vector, in normal form
+    from .. import quant
+    from ..sym import Sym
+    sy = Sym(prog, an, slice_param=99)
+    okbb0 = ok_sites[0][0]
+    facts_ = quant.forall_facts(prog, an, sy, okbb0)
+    for okbb, _ in ok_sites[1:]:
+        other = {(f.seq, f.enum, f.atoms) for f in quant.forall_facts(prog, an, sy, okbb)}
+        facts_ = [f for f in facts_ if (f.seq, f.enum, f.atoms) in other]
+    CH = "arg1"
+    LM1 = "len(arg1) - 1"
+    ACC = "alpha_g_detector::padwing::Chunk::"
+    FIRST = "Index::index(arg1,0)"
+
+    def same_of_first(g):
+        """atom `g(x) == g(chunks[0])` in either operand order of the canonical difference"""
+        return {"%s(%s) - %s(x) == 0" % (g, FIRST, g), "%s(x) - %s(%s) == 0" % (g, g, FIRST),
+                "cmp Eq %s(%s) %s(x)" % (g, FIRST, g), "cmp Eq %s(x) %s(%s)" % (g, g, FIRST)}
+    PAY = ["len(%spayload(%%s))" % ACC, "len(%%s.%d)" % payload_f]
+
+    def kind_of(f):
+        whole = f.seq == (CH, "0", None)
+        butlast = f.seq == (CH, "0", LM1)
+        if whole and not f.enum and len(f.atoms) == 1:
+            a = next(iter(f.atoms))
+            if a in same_of_first(ACC + "board_id"):
+                return "board"
+            if a in same_of_first(ACC + "after_id"):
+                return "chip"
+        if whole and f.enum and f.atoms in ({"i - x.%d == 0" % chunk_id}, {"-i + x.%d == 0" % chunk_id}):
+            return "dense"
+        if butlast and not f.enum and f.atoms == {"pred %sis_end_of_message(x) False" % ACC}:
+            return "eom_none_before"
+        if butlast and not f.enum and len(f.atoms) == 1:
+            a = next(iter(f.atoms))
+            for pa in PAY:
+                for pb in PAY:
+                    if a in ("%s - %s == 0" % (pa % FIRST, pb % "x"), "%s - %s == 0" % (pb % "x", pa % FIRST)):
+                        return "size"
+        if whole and not f.enum and len(f.atoms) == 1:
+            a = next(iter(f.atoms))
+            for pa in PAY:
+                for pb in PAY:
+                    if a in ("%s - %s == 0" % (pa % FIRST, pb % "x"), "%s - %s == 0" % (pb % "x", pa % FIRST)):
+                        return "size_all"
+        return None
+    found = {"board": None, "chip": None, "dense": None, "eom_none_before": None, "size": None, "size_all": None}
+    fact_sites = {}
+    for f in facts_:
+        k = kind_of(f)
+        fact_sites.setdefault(f.site, []).append((k, f))
+        if k and found.get(k) is None:
+            found[k] = f
+    for k in ("board", "chip"):
+        if found[k] is not None:
+            res.hit(R2)
+    res.sample({"rule": "C04.R2-R5", "facts": [repr(f)[:220] for f in facts_]})
+
+    # ---------------------------------------------------------------- census of uses of `chunks` (order dependence)
     n_sites = 0
-    quantified = []   # (bb, kind, adapters, closure-return term, post_sort)
+    fold_site = None
+
+    def first_chunk_ok(bb):
+        """a pre-sort `chunks[0]` is fine when its value only feeds an accessor g for which `all g(x) == g(chunks[0])`
+        guards the Ok path (then g(chunks[0]) is the common value, whatever the order), or only an Err payload"""
+        consumers = []
+        for b2, t2 in body.calls():
+            for a in t2["args"]:
+                x = strip(an.terms.operand(a))
+                if x[0] == "call" and x[3] == bb and short(x[1]) in ("Index::index",):
+                    consumers.append(cname(t2))
+        if not consumers:
+            return False
+        for c in consumers:
+            g = c.rsplit("::", 1)[-1]
+            if not (c.startswith(ACC) and ((g == "board_id" and found["board"]) or (g == "after_id" and found["chip"]))):
+                return False
+        return True
     for bb, t in body.calls():
         args = [an.terms.operand(a) for a in t["args"]]
         if not any(direct_use(a) for a in args):
@@ -184,123 +270,39 @@ def run(prog, tier, res):
         site = "%s" % s
         if s in INSENSITIVE and base_is_chunks(args[0]):
             continue
-        if s in SORTS:
-            continue
-        if s in CHAIN:
-            continue   # judged at the consumer
-        if s == "<impl [T]>::last" and base_is_chunks(args[0]) or (s == "Index::index" and base_is_chunks(args[0])):
+        if s in SORTS or s in CHAIN:
+            continue   # adapters are judged at the consumer
+        if (s in ("<impl [T]>::last", "<impl [T]>::first", "<impl [T]>::split_last", "<impl [T]>::split_first") and base_is_chunks(args[0])) or \
+                (s == "Index::index" and base_is_chunks(args[0])):
             res.hit(R1)
             if not after_sort(bb):
-                # allowed pre-sort only inside error construction (value does not affect success/failure):
-                if feeds_only_err(an, bb):
+                is_first = s == "Index::index" and strip(args[1]) == ("const", 0, "usize")
+                if feeds_only_err(an, bb) or (is_first and first_chunk_ok(bb)):
                     continue
                 res.violate(R1, FN, "elem-access:%s" % site,
                             "element of the chunk vector selected by position before the vector is sorted by chunk_id", body.where(bb))
             continue
-        if s in QUANT or s in ("Iterator::fold", "Iterator::for_each", "Iterator::map", "Iterator::collect",
-                               "Iterator::try_fold", "Iterator::try_for_each", "Iterator::filter", "Iterator::count"):
-            ads, base_ok = iter_chain(args[0])
-            ci = closure_info(prog, an, args[-1]) if len(args) >= 2 else None
-            rets = None
-            if ci:
-                cb, cap = ci
-                res.functions.add(cb.path)
-                rets = [subst_upvars(r, cap) for r in closure_ret(prog, cb)]
-            quantified.append((bb, s, ads, rets, after_sort(bb), base_ok, t))
-            continue
-        # unknown consumer of the chunk vector: treat as order dependent
+        if s == "Iterator::fold":
+            fold_site = (bb, t, iter_chain(args[0])[0])
+        kinds = [k for k, f in fact_sites.get(bb, [])]
+        if kinds and all(k in ("board", "chip") for k in kinds):
+            continue            # permutation-invariant predicate: allowed before the sort
+        # every other consumer (recognised order-dependent check, loop, fold, unknown): after the sort
         res.hit(R1)
         if not after_sort(bb):
-            res.violate(R1, FN, "use:%s" % site, "use of the chunk vector by `%s` is not dominated by the chunk_id sort" % s,
-                        body.where(bb))
+            what = ("order-dependent check `%s`" % kinds[0]) if kinds and kinds[0] else "`%s` over the chunk vector" % s
+            res.violate(R1, FN, ("presort:%s" % kinds[0]) if kinds and kinds[0] else "quantified:%s" % s,
+                        "%s runs before the chunk vector is sorted by chunk_id and is not a recognised permutation-invariant predicate" % what, body.where(bb))
+    # loop-form facts: the loop header must be after the sort as well
+    for f in facts_:
+        if f.how == "for-loop" and kind_of(f) not in ("board", "chip") and not after_sort(f.site):
+            res.violate(R1, FN, "presort-loop:%s" % kind_of(f), "a loop over the chunk vector checks positions before the vector is sorted by chunk_id", body.where(f.site))
     res.call_sites += n_sites
 
-    # ---------------------------------------------------------------- classify the quantified uses
-    found = {"board": None, "chip": None, "dense": None, "eom_none_before": None, "size": None, "fold": None}
-    for (bb, s, ads, rets, post, base_ok, t) in quantified:
-        kind = None
-        if not base_ok:
-            res.violate(R1, FN, "iter-base:%s" % s, "iterator consumed by `%s` is not over the chunk vector itself" % s, body.where(bb))
-            continue
-        if s in ("Iterator::position", "Iterator::any", "Iterator::find") and rets and len(rets) == 1:
-            r = rets[0]
-            c = as_cmp(r, True)
-            plain = [a for a in ads if a in ("iter", "into_iter")]
-            takes = [a for a in ads if isinstance(a, tuple) and a[0] == "take"]
-            others = [a for a in ads if a not in plain and a not in takes and a != "enumerate"]
-            if c and c[0] == "Ne" and not takes and not others and "enumerate" not in ads:
-                ga = proj_of(c[1], lambda x: x == ("carg", 0))
-                gb = proj_of(c[2], first_chunk)
-                if ga is None or gb is None:
-                    ga = proj_of(c[2], lambda x: x == ("carg", 0))
-                    gb = proj_of(c[1], first_chunk)
-                if ga is not None and ga == gb and ga:
-                    # all g(c) == g(chunks[0]): permutation invariant
-                    g = ga[-1] if ga else None
-                    name = g[1] if g and g[0] == "call" else None
-                    if name and name.endswith("Chunk::board_id"):
-                        kind = "board"
-                    elif name and name.endswith("Chunk::after_id"):
-                        kind = "chip"
-                    elif len(ga) == 2 and ga[0] == ("call", "core::slice::<impl [T]>::len") and str(ga[1][1]).endswith("Chunk::payload"):
-                        kind = "size_all"
-                    else:
-                        kind = "allsame"
-                    res.hit(R2)
-            if kind is None and c and "enumerate" in ads and not takes and not others:
-                # (i, c): usize::from(c.chunk_id) != i
-                def idx(x):
-                    x = strip(x)
-                    return x == ("field", ("carg", 0), 0)
-                def cid(x):
-                    x = strip(x)
-                    while x[0] == "cast":
-                        x = strip(x[2])
-                    return is_field_of(prog, x, lambda y: strip(y) == ("field", ("carg", 0), 1), CHUNK, "chunk_id")
-                if c[0] == "Ne" and ((idx(c[1]) and cid(c[2])) or (idx(c[2]) and cid(c[1]))):
-                    kind = "dense"
-            if kind is None and takes and not others and "enumerate" not in ads:
-                tk = takes[0][1]
-                len_minus_1 = (tk[0] == "bin" and tk[1] == "Sub" and tk[3][0] == "const" and tk[3][1] == 1
-                               and tk[2][0] == "call" and short(tk[2][1]) in ("Vec::<T, A>::len", "<impl [T]>::len")
-                               and base_is_chunks(tk[2][2][0]))
-                if len_minus_1:
-                    rr = strip(r)
-                    if rr[0] == "call" and rr[1].endswith("Chunk::is_end_of_message") and strip(rr[2][0]) == ("carg", 0):
-                        kind = "eom_none_before"
-                    elif c and c[0] == "Ne":
-                        sig_a = proj_of(c[1], lambda x: x == ("carg", 0))
-                        sig_b = proj_of(c[2], first_chunk)
-                        if sig_a is None or sig_b is None:
-                            sig_a = proj_of(c[2], lambda x: x == ("carg", 0))
-                            sig_b = proj_of(c[1], first_chunk)
-                        if sig_a and sig_a == sig_b and len(sig_a) == 2 and short(sig_a[0][1]) == "<impl [T]>::len" \
-                                and payload_sig(prog, sig_a[1], payload_f):
-                            kind = "size"
-        if s == "Iterator::fold":
-            kind = "fold"
-        if kind in ("board", "chip", "allsame", "size_all"):
-            found[kind] = bb
-            continue
-        res.hit(R1)
-        if kind is None:
-            if not post:
-                res.violate(R1, FN, "quantified:%s" % s,
-                            "`%s` over the chunk vector is neither dominated by the chunk_id sort nor a recognised permutation-invariant predicate" % s,
-                            body.where(bb))
-            continue
-        if not post:
-            res.violate(R1, FN, "presort:%s" % kind, "order-dependent check `%s` runs before the chunk vector is sorted by chunk_id" % kind, body.where(bb))
-        found[kind] = (bb, t, ads, rets)
-
-    # ---------------------------------------------------------------- R2: both homogeneity predicates must guard the Ok path
+    # ---------------------------------------------------------------- R2: both homogeneity predicates guard the Ok path
     for kind in ("board", "chip"):
-        bb = found[kind]
-        if bb is None:
-            res.violate(R2, FN, "missing:%s" % kind, "no 'all chunks have the same %s as chunks[0]' predicate found" % kind, body.where())
-            continue
-        if not none_edge_dominates(an, bb, ok_sites):
-            res.violate(R2, FN, "unguarded:%s" % kind, "the %s homogeneity predicate does not guard the Ok path (Some(..) does not lead to Err)" % kind, body.where(bb))
+        if found[kind] is None:
+            res.violate(R2, FN, "missing:%s" % kind, "no 'every chunk has the same %s as chunks[0]' check guards the Ok path" % kind, body.where())
 
     # ---------------------------------------------------------------- R6 non-empty
     ok6 = False
@@ -308,6 +310,12 @@ def run(prog, tier, res):
         for (d, tr) in an.bool_atoms_at(okbb):
             if tr is False and d[0] == "call" and short(d[1]) in ("Vec::<T, A>::is_empty", "<impl [T]>::is_empty") and base_is_chunks(d[2][0]):
                 ok6 = True
+        ats6 = []
+        for (d, rel, vals) in an.atoms_at(okbb):
+            ats6 += [atom_str_(a) for a in sy.atoms(d, rel, vals, is_bool=True)]
+        from .. import accept as _accept
+        if "pred is_empty(arg1) False" in ats6 or "len(arg1) - 1 >= 0" in ats6:
+            ok6 = True
     if ok6:
         res.hit(R2)
         res.hit(R6)
@@ -317,39 +325,38 @@ def run(prog, tier, res):
     # ---------------------------------------------------------------- R3 dense ids
     d = found["dense"]
     if d is None:
-        res.violate(R3, FN, "dense-ids", "no `enumerate().position(|(i, c)| usize::from(c.chunk_id) != i)` check found", body.where())
+        res.violate(R3, FN, "dense-ids", "no check that chunk i carries chunk id i for every position i guards the Ok path", body.where())
+    elif not after_sort(d.site):
+        res.violate(R3, FN, "dense-ids-presort", "the dense chunk-id check runs before the sort", body.where(d.site))
     else:
-        if none_edge_dominates(an, d[0], ok_sites):
-            res.hit(R3)
-        else:
-            res.violate(R3, FN, "dense-ids-unguarded", "dense chunk-id check does not guard the Ok path", body.where(d[0]))
+        res.hit(R3)
 
     # ---------------------------------------------------------------- R4 end of message
+    LAST = {"Option::<T>::unwrap(<impl [T]>::last(arg1))", "Index::index(arg1,len(arg1) - 1)", "Option::<T>::unwrap(<impl [T]>::split_last(arg1)).0",
+            "Option::<T>::expect(<impl [T]>::last(arg1))"}
     eom_last = False
     for okbb, _ in ok_sites:
         for (dt, tr) in an.bool_atoms_at(okbb):
-            x = dt
-            if tr is True and x[0] == "call" and x[1].endswith("Chunk::is_end_of_message"):
-                a = strip(x[2][0])
-                # Option::unwrap(last(chunks))
-                if a[0] == "call" and short(a[1]) in ("Option::<T>::unwrap", "Option::<T>::expect"):
-                    a = strip(a[2][0])
-                if a[0] == "call" and short(a[1]) == "<impl [T]>::last" and base_is_chunks(a[2][0]):
-                    # the `last` call must be after the sort
-                    eom_last = after_sort(a[3])
-                    if not eom_last:
-                        res.violate(R4, FN, "eom-last-presort", "`last()` is taken before the sort", body.where(a[3]))
+            x = strip(dt)
+            if tr is True and x[0] == "call" and x[1].endswith("Chunk::is_end_of_message") and len(x[2]) == 1:
+                if sy.name(x[2][0]) in LAST:
+                    # the element must be taken after the sort
+                    sel = [y for y in walk(x[2][0]) if y[0] == "call" and short(y[1]) in ("<impl [T]>::last", "Index::index", "<impl [T]>::split_last")]
+                    if sel and all(after_sort(y[3]) for y in sel if isinstance(y[3], int)):
+                        eom_last = True
+                    else:
+                        res.violate(R4, FN, "eom-last-presort", "the last chunk is selected before the sort", body.where())
     if eom_last:
         res.hit(R4)
     else:
-        res.violate(R4, FN, "eom-last", "the Ok path is not guarded by `chunks.last().is_end_of_message()` after the sort", body.where())
+        res.violate(R4, FN, "eom-last", "the Ok path is not guarded by `the last chunk (after the sort) is end-of-message`", body.where())
     e = found["eom_none_before"]
     if e is None:
-        res.violate(R4, FN, "eom-earlier", "no check that no chunk before the last carries end-of-message (take(len-1).position(is_end_of_message))", body.where())
-    elif none_edge_dominates(an, e[0], ok_sites):
-        res.hit(R4)
+        res.violate(R4, FN, "eom-earlier", "no check that no chunk before the last carries end-of-message guards the Ok path", body.where())
+    elif not after_sort(e.site):
+        res.violate(R4, FN, "eom-earlier-presort", "the misplaced end-of-message check runs before the sort", body.where(e.site))
     else:
-        res.violate(R4, FN, "eom-earlier-unguarded", "misplaced end-of-message check does not guard the Ok path", body.where(e[0]))
+        res.hit(R4)
 
     # the accessor the two checks rely on: true exactly when the stored flags byte is 1 (flags is 0 or 1 by C03)
     EOM = "alpha_g_detector::padwing::Chunk::is_end_of_message"
@@ -379,67 +386,94 @@ def run(prog, tier, res):
 
     # ---------------------------------------------------------------- R5 equal size
     z = found["size"]
-    if z is None and found.get("size_all") is not None:
-        # comparing *all* chunks (including the last) would reject valid messages; not the property's clause
-        z = None
     if z is None:
-        res.violate(R5, FN, "equal-size", "no `take(len-1).position(|c| c.payload().len() != chunks[0].payload().len())` check found", body.where())
-    elif none_edge_dominates(an, z[0], ok_sites):
-        res.hit(R5)
+        # comparing *all* chunks (including the last) would reject valid messages; not the property's clause
+        res.violate(R5, FN, "equal-size", "no check that every chunk before the last has the payload size of chunks[0] guards the Ok path%s" % (
+            " (the check also covers the last chunk)" if found["size_all"] else ""), body.where())
+    elif not after_sort(z.site):
+        res.violate(R5, FN, "equal-size-presort", "payload size check runs before the sort", body.where(z.site))
     else:
-        res.violate(R5, FN, "equal-size-unguarded", "payload size check does not guard the Ok path", body.where(z[0]))
+        res.hit(R5)
 
     # ---------------------------------------------------------------- R7 concatenation and pass-through
-    f = found["fold"]
-    if f is None:
-        res.violate(R7, FN, "concat", "payload is not built by a fold over the chunk vector", body.where())
+    dec = [(b3, t3) for b3, t3 in body.calls() if cname(t3) == FN_SLICE]
+    if len(dec) != 1:
+        res.violate(R7, FN, "decode-call", "expected exactly one call of PwbV2Packet::try_from(&[u8]), found %d" % len(dec), body.where())
     else:
-        bb, t, ads, rets = f
-        ok = ads in (["into_iter"], ["iter"])
-        if not ok:
-            res.violate(R7, FN, "concat-order", "payload fold does not iterate the sorted vector front to back (adapters: %s)" % (ads,), body.where(bb))
-        ci = closure_info(prog, an, an.terms.operand(t["args"][-1]))
-        cb = ci[0] if ci else None
-        good = False
-        if cb is not None:
-            can = analysis(prog, cb)
-            rts = closure_ret(prog, cb)
-            exts = [(b2, t2) for b2, t2 in cb.calls() if short(cname(t2)) in ("Vec::<T, A>::extend_from_slice", "Extend::extend", "Vec::<T, A>::extend")]
-            if len(rts) == 1 and strip(rts[0]) == ("param", 2) and len(exts) == 1:
-                b2, t2 = exts[0]
-                a0 = strip(can.terms.operand(t2["args"][0]))
-                a1 = strip(can.terms.operand(t2["args"][1]))
-                if a0 == ("param", 2) and (is_field_of(prog, a1, lambda y: strip(y) == ("param", 3), CHUNK, "payload")):
-                    good = True
-        if good and ok:
-            res.hit(R7)
-        elif not good:
-            res.violate(R7, FN, "concat-closure", "fold closure is not `acc.extend_from_slice(&item.payload); acc`", body.where(bb))
-        # the byte decoder is called on the fold result, whole
-        dec = [(b3, t3) for b3, t3 in body.calls() if cname(t3) == FN_SLICE]
-        if len(dec) != 1:
-            res.violate(R7, FN, "decode-call", "expected exactly one call of PwbV2Packet::try_from(&[u8]), found %d" % len(dec), body.where())
+        b3, t3 = dec[0]
+        a = strip(an.terms.operand(t3["args"][0]))
+        whole = False
+        if a[0] == "call" and short(a[1]) == "Index::index" and len(a[2]) == 2 and a[2][1] == ("aggr", "adt:std::ops::RangeFull::RangeFull", ()):
+            a = strip(a[2][0])
+            whole = True
+        elif a[0] == "call" and short(a[1]) in ("Deref::deref", "Vec::<T, A>::as_slice"):
+            a = strip(a[2][0])
+            whole = True
+        elif a[0] in ("mut", "call"):
+            whole = True            # &Vec<u8> coerced to &[u8]
+        concat_ok = False
+        why7 = "the decoded bytes are not built by appending each chunk's payload in vector order"
+        if a[0] == "call" and short(a[1]) == "Iterator::fold" and fold_site is not None and a[3] == fold_site[0]:
+            bb, t, ads = fold_site
+            okads = ads in (["into_iter"], ["iter"])
+            ci = closure_info(prog, an, an.terms.operand(t["args"][-1]))
+            cb = ci[0] if ci else None
+            good = False
+            if cb is not None:
+                can = analysis(prog, cb)
+                rts = closure_ret(prog, cb)
+                exts = [(b2, t2) for b2, t2 in cb.calls() if short(cname(t2)) in ("Vec::<T, A>::extend_from_slice", "Extend::extend", "Vec::<T, A>::extend")]
+                if len(rts) == 1 and strip(rts[0]) == ("param", 2) and len(exts) == 1:
+                    b2, t2 = exts[0]
+                    a0 = strip(can.terms.operand(t2["args"][0]))
+                    a1 = strip(can.terms.operand(t2["args"][1]))
+                    if a0 == ("param", 2) and (is_field_of(prog, a1, lambda y: strip(y) == ("param", 3), CHUNK, "payload")):
+                        good = True
+            concat_ok = good and okads
+            if not okads:
+                why7 = "payload fold does not iterate the sorted vector front to back (adapters: %s)" % (ads,)
+            elif not good:
+                why7 = "fold closure is not `acc.extend_from_slice(&item.payload); acc`"
         else:
-            b3, t3 = dec[0]
-            a = strip(an.terms.operand(t3["args"][0]))
-            whole = False
-            if a[0] == "call" and short(a[1]) == "Index::index" and len(a[2]) == 2 and a[2][1] == ("aggr", "adt:std::ops::RangeFull::RangeFull", ()):
-                a = strip(a[2][0])
-                whole = True
-            elif a[0] == "call" and short(a[1]) in ("Deref::deref", "Vec::<T, A>::as_slice"):
-                a = strip(a[2][0])
-                whole = True
-            if whole and a[0] == "call" and short(a[1]) == "Iterator::fold" and a[3] == bb:
-                res.hit(R7)
-            else:
-                res.violate(R7, FN, "decode-arg", "the bytes decoded are not the whole concatenated payload: %s" % show(a), body.where(b3))
-            # Ok value is the decoder's result, unchanged
-            passthru = all(len(t4[2]) == 1 and strip_try(t4[2][0]) is not None and strip_try(t4[2][0])[0] == "call"
-                           and strip_try(t4[2][0])[1] == FN_SLICE for _, t4 in ok_sites)
-            if passthru:
-                res.hit(R7)
-            else:
-                res.violate(R7, FN, "result", "Ok value is not the byte decoder's result", body.where(ok_sites[0][0]))
+            # loop form: `for chunk in &chunks { payload.extend_from_slice(chunk.payload()) }`
+            nm = sy.name(a)
+            ELEM_ = "(Iterator::next(mut(arg1)) as Some).0"
+            forms = {"vec[extend_from_slice %spayload(%s)]" % (ACC, ELEM_), "vec[extend_from_slice %s.%d]" % (ELEM_, payload_f),
+                     "vec[extend %spayload(%s)]" % (ACC, ELEM_), "vec[extend %s.%d]" % (ELEM_, payload_f)}
+            if nm in forms:
+                # one append on every iteration of a loop over the whole vector, front to back, after the sort
+                exts = [(b2, t2) for b2, t2 in body.calls() if short(cname(t2)) in ("Vec::<T, A>::extend_from_slice", "Extend::extend", "Vec::<T, A>::extend")]
+                loops_ = [(tl, hd) for (tl, hd) in body.back_edges() if exts and exts[0][0] in body.natural_loop(tl, hd)]
+                if len(exts) == 1 and len(loops_) == 1:
+                    tl, hd = loops_[0]
+                    every = body.dominates(exts[0][0], tl)
+                    nx = [(b2, t2) for b2, t2 in body.calls() if b2 in body.natural_loop(tl, hd) and short(cname(t2)) == "Iterator::next"]
+                    fwd = False
+                    if len(nx) == 1:
+                        an.terms._pos = (nx[0][0], "t")
+                        ps_ = quant.parse_seq(prog, an, sy, an.terms.operand(nx[0][1]["args"][0]))
+                        ads_ = iter_chain(an.terms.operand(nx[0][1]["args"][0]))[0]
+                        fwd = ps_ is not None and sy.name(ps_[0]) == CH and str(ps_[1]) == "0" and ps_[2] is None and not ps_[4] and "rev" not in ads_
+                    concat_ok = every and fwd and after_sort(hd)
+                    if not fwd:
+                        why7 = "the payload loop does not walk the whole sorted vector front to back"
+                    elif not every:
+                        why7 = "the payload loop can skip a chunk"
+        if concat_ok:
+            res.hit(R7)
+        else:
+            res.violate(R7, FN, "concat", why7, body.where(b3))
+        if whole and concat_ok:
+            res.hit(R7)
+        elif concat_ok:
+            res.violate(R7, FN, "decode-arg", "the bytes decoded are not the whole concatenated payload: %s" % show(a)[:160], body.where(b3))
+        # Ok value is the decoder's result, unchanged
+        passthru = all(len(t4[2]) == 1 and strip_try(t4[2][0]) is not None and strip_try(t4[2][0])[0] == "call"
+                       and strip_try(t4[2][0])[1] == FN_SLICE for _, t4 in ok_sites)
+        if passthru:
+            res.hit(R7)
+        else:
+            res.violate(R7, FN, "result", "Ok value is not the byte decoder's result", body.where(ok_sites[0][0]))
 
     # ---------------------------------------------------------------- R8 wrapper forwards
     wb = prog.body(WRAP)
@@ -452,7 +486,6 @@ def run(prog, tier, res):
         res.violate(R8, WRAP, "forward", "PwbPacket::try_from(Vec<Chunk>) does not forward its argument to PwbV2Packet::try_from", wb.where())
 
     res.sample({"rule": "C04.R1", "sort_blocks": sorts, "uses_of_chunk_vector": n_sites})
-    res.sample({"rule": "C04.R3", "dense_closure": show(found["dense"][3][0]) if found["dense"] else None})
     res.undecided = ["none beyond the trusted determinism of sort_unstable_by_key"]
 
 
